@@ -93,6 +93,10 @@ type G struct {
 	sitePC  uintptr
 	parent  *G
 	Index   int // creation order within the execution
+	// parked: the goroutine was blocked in its pending operation at a point where nothing could run
+	// (a quiescence point or a clock advance of the quiescent time policy), so it is really parked there,
+	// not merely about to arrive: a non-blocking send/receive of another goroutine finds it for certain.
+	parked bool
 }
 
 // IDH is a schedule-independent 64-bit identity of the goroutine.
@@ -399,6 +403,7 @@ func (w *World) yield(o *op) {
 		o.site = callerSite()
 	}
 	g.pending = o
+	g.parked = false
 	w.dispatch(g)
 	g.pending = nil
 	if o.panicVal != nil {
@@ -511,6 +516,7 @@ func (w *World) decide() *G {
 	}
 	w.altBuf = alts
 	if len(alts) == 0 {
+		w.markParked()
 		// quiesce waiters run only when nothing else can
 		for _, g := range w.gs {
 			if !g.done && g.pending != nil && g.pending.kind == opQuiesce {
@@ -554,6 +560,16 @@ func (w *World) decide() *G {
 		w.res.Trace = append(w.res.Trace, fmt.Sprintf("%4d g%-8s %-22s %s", w.Steps, g.ID, w.describe(g.pending), g.pending.site))
 	}
 	return g
+}
+
+// markParked: nothing is enabled, so every goroutine with a pending operation is blocked in it.
+func (w *World) markParked() {
+	for _, g := range w.gs {
+		if !g.done && g.pending != nil && g.pending.kind != opQuiesce && !g.parked {
+			g.parked = true
+			g.hash = mix(g.hash, 0x9a27ed)
+		}
+	}
 }
 
 func gLess(a, b *G) bool {
